@@ -265,6 +265,15 @@ class History:
     def F(self, reg):
         self.steps.append('F ' + reg)
 
+    def O(self, how, *regs):
+        """another observer of the live object(s): M msg_ser, Z serialize(), G GetHash(), R repr(), Q =="""
+        self.steps.append(' '.join((how,) + regs))
+
+    def X(self, sid, raw, frames=()):
+        """a stream holding raw bytes; `frames` = the (chain, kind, shadow) it is known to start with, if any"""
+        self.streams[sid] = [list(frames), 0, bool(frames)]
+        self.steps.append('X %s %s' % (sid, bytes(raw).hex()))
+
     def S(self, sid, regs):
         self.streams[sid] = [[(self.chain,) + copy.deepcopy(self.regs[r]) for r in regs], 0, True]
         self.steps.append(' '.join(['S', sid] + list(regs)))
@@ -503,6 +512,91 @@ def histories(rng, T, kinds, big, known=False):
             if h.P('s', r):
                 h.F(r)
         yield 'hist:pair:' + kind, h.steps
+
+    for kind in kinds:
+        # (e) every ordered pair of observers on ONE live object, not rebuilt in between: to_bytes, msg_ser,
+        #     serialize(), GetHash(), repr(), == — a memo filled by one route and read by another, or not dropped by
+        #     an in-place edit, shows; a chain switch in between shows what was captured too early
+        h = History()
+        h.C(rng.choice(CHAINS))
+        h.N('a', small_msg(rng, kind, T), rng.randrange(64))
+        h.N('b', norm_msg(from_shadow(*h.regs['a'])), rng.randrange(64))      # equal values, another object
+        obs = ['F', 'M', 'Z', 'G', 'R', 'Q']
+        h.O('Q', 'a', 'b')
+        h.O('Q', 'b', 'a')
+
+        def run(o):
+            if o == 'Q':
+                h.O('Q', 'a', 'b')
+            else:
+                h.O(o, 'a')
+        n = 0
+        for o1 in obs:
+            for o2 in obs:
+                run(o1)
+                run(o2)
+                n += 1
+                if n % 3 == 0:
+                    ed = edit_catalogue(rng, kind, h.regs['a'][1], T)
+                    if ed:
+                        h.E('a', rng.choice(ed))
+                    elif n % 2 == 0:
+                        h.C(rng.choice(CHAINS))
+                if n % 7 == 0:
+                    h.C(rng.choice(CHAINS))
+                if n % 12 == 0:                                   # bring b to a's current values: == must see it
+                    h.N('b', norm_msg(from_shadow(*h.regs['a'])), rng.randrange(64))
+                    h.O('Q', 'a', 'b')
+        yield 'hist:observers:' + kind, h.steps
+
+    # (f) a call right after a call that RAISED (caught) — on the same BytesIO, on a fresh one, with the same and
+    #     with other arguments, the protover keyword differing between consecutive calls
+    import hashlib
+    import struct
+
+    def raw_frame(ch, cmd, payload, length=None, cks=None):
+        return T.py_frame(T.MAGIC[ch], cmd, payload, length=length, checksum=cks)
+    for _ in range(8 if big else 2):
+        h = History()
+        ch = rng.choice(CHAINS)
+        h.C(ch)
+        k1, k2 = rng.choice(kinds), rng.choice(kinds)
+        h.N('a', small_msg(rng, k1, T), rng.randrange(64))
+        h.N('c', small_msg(rng, k2, T), rng.randrange(64))
+        ping = struct.pack('<Q', rng.getrandbits(64))
+        good = raw_frame(ch, b'ping', ping)
+        faults = [raw_frame(ch, b'ping', ping, cks=b'\x00\x01\x02\x03'),             # wrong checksum
+                  good[:rng.choice([1, 23, 24, 31])],                              # truncated
+                  raw_frame(rng.choice([c for c in CHAINS if c != ch]), b'ping', ping),   # foreign magic
+                  raw_frame(ch, b'ping', ping, length=rng.choice([T.MAX_SIZE + 1, (1 << 32) - 1])),  # bad length
+                  raw_frame(ch, b'inv', b'\x05' + ping),                            # msg_deser raises part-way
+                  raw_frame(ch, b'version', ping),                                  # idem, another class
+                  raw_frame(ch, b'pong', ping[:7])]                                 # idem
+        rng.shuffle(faults)
+        for fi, bad in enumerate(faults):
+            h.X('x%d' % fi, bad)
+            h.P('x%d' % fi, 'e')                                   # raises (caught)
+            if fi % 3 == 0:                                        # next call: fresh stream, other message
+                h.S('s%d' % fi, ['a'])
+                # a protover other than the default only where no address is inside (else: known finding D25)
+                pvs = [60002] if k1 in ('addr', 'version') else [60002, 70015, 31401]
+                if h.P('s%d' % fi, 'p', None if fi % 2 else rng.choice(pvs)):
+                    h.F('p')
+            elif fi % 3 == 1:                                      # same BytesIO, a frame appended behind the fault
+                h.P('x%d' % fi, 'e')
+                h.X('y%d' % fi, good + good)
+                h.P('y%d' % fi, 'q', rng.choice([31401, 209, 70015]))   # no address inside: protover is immaterial
+                h.P('y%d' % fi, 'q')
+                h.F('q')
+            else:                                                  # the same faulty bytes again, then a good parse
+                h.X('z%d' % fi, bad)
+                h.P('z%d' % fi, 'e')
+                h.S('t%d' % fi, ['c', 'a'])
+                h.P('t%d' % fi, 'r', 60002)
+                h.P('t%d' % fi, 'r')
+                h.F('r')
+            h.F('a')
+        yield 'hist:after-raise', h.steps
 
     # (c) one BytesIO read several times, frames of other types and chains in between, appended while reading;
     #     parse, re-frame the parsed object, edit it, re-frame
